@@ -224,3 +224,22 @@ def inflate_counts(rng, v, limit):
 
 def qualname(cls):
     return cls.__module__ + '.' + cls.__qualname__
+
+
+def self_nested(v, depth, limit=4):
+    """A vector nested into itself: every place of a binary vector that holds a length-prefixed blob (a 32-bit length L followed
+    by L octets, L >= 16) gets the whole vector in place of the blob, `depth` times over.  A parser that accepts the structure of
+    its own class inside such a field (a certificate whose signing key may be a certificate) is driven to a nesting depth the
+    sender chooses.  Yields (offset, bytes)."""
+    n = len(v)
+    found = 0
+    for i in range(0, n - 20):
+        ln = int.from_bytes(v[i:i + 4], 'big')
+        if 16 <= ln <= n - i - 4:
+            b = v
+            for _ in range(depth):
+                b = v[:i] + len(b).to_bytes(4, 'big') + b + v[i + 4 + ln:]
+            yield i, b
+            found += 1
+            if found >= limit:
+                return
